@@ -820,6 +820,17 @@ Proof.
       now apply IH.
 Qed.
 
+Lemma hooks_wf_app {T} (hs : list (handle T)) x :
+  hooks_wf hs -> (forall p i, h_hook T x = Some (p, i) -> (p < length hs)%nat) ->
+  hooks_wf (hs ++ [x]).
+Proof.
+  intros Hw Hx k y p i Hy Hh. destruct (Compare_dec.lt_dec k (length hs)) as [Hlt|Hge].
+  - rewrite nth_error_app1 in Hy by exact Hlt. eapply Hw; eauto.
+  - rewrite nth_error_app2 in Hy by lia. destruct (k - length hs)%nat as [|d] eqn:Ed.
+    + simpl in Hy. injection Hy as <-. pose proof (Hx _ _ Hh). lia.
+    + simpl in Hy. destruct d; discriminate.
+Qed.
+
 Section Generic.
 Variable T St : Type.
 Variable s_get : St -> T -> N -> res T.
@@ -915,17 +926,6 @@ Proof.
   eapply Hw; [exact Hx'|rewrite Hk; exact Hh].
 Qed.
 
-Lemma hooks_wf_app (hs : list (handle T)) x :
-  hooks_wf hs -> (forall p i, h_hook T x = Some (p, i) -> (p < length hs)%nat) ->
-  hooks_wf (hs ++ [x]).
-Proof.
-  intros Hw Hx k y p i Hy Hh. destruct (Compare_dec.lt_dec k (length hs)) as [Hlt|Hge].
-  - rewrite nth_error_app1 in Hy by exact Hlt. eapply Hw; eauto.
-  - rewrite nth_error_app2 in Hy by lia. destruct (k - length hs)%nat as [|d] eqn:Ed.
-    + simpl in Hy. injection Hy as <-. pose proof (Hx _ _ Hh). lia.
-    + simpl in Hy. destruct d; discriminate.
-Qed.
-
 (* every step: the handle list grows, types/hooks are fixed, hooks stay well-founded, and the
    backing of a handle that is not on the hook chain of the target is untouched *)
 Lemma step_local st o st' r :
@@ -1004,4 +1004,1089 @@ Proof.
     destruct (SetB (hook_fuel T St st) st h b s'). exact Hs.
 Qed.
 
+(* ---- 5b. store invariants: given a store whose primitives respect an invariant [Inv], a
+        validity predicate on references and a preorder [R] on stores, every step does ---- *)
+
+Variable Inv : St -> Prop.
+Variable valid : St -> T -> Prop.
+Variable R : St -> St -> Prop.
+Definition good (s : St) (r : T * St) : Prop := Inv (snd r) /\ R s (snd r) /\ valid (snd r) (fst r).
+
+Hypothesis R_refl : forall s, R s s.
+Hypothesis R_trans : forall a b c, R a b -> R b c -> R a c.
+Hypothesis valid_mono : forall s s' t, R s s' -> valid s t -> valid s' t.
+Hypothesis leaf_ok : forall s c, Inv s -> good s (s_leaf s c).
+Hypothesis pair_ok : forall s l r, Inv s -> valid s l -> valid s r -> good s (s_pair s l r).
+Hypothesis set_ok : forall s a g e v r, Inv s -> valid s a -> valid s v ->
+  s_set s a g e v = OK r -> good s r.
+Hypothesis get_ok : forall s a g t, Inv s -> valid s a -> s_get s a g = OK t -> valid s t.
+Hypothesis zero_ok : forall s, Inv s -> valid s (s_zero 0).
+Hypothesis true_ok : forall s, Inv s -> valid s s_true.
+
+Lemma good_trans s s1 r : R s s1 -> good s1 r -> good s r.
+Proof. intros HR (A & B & C). split; [exact A|]. split; [eapply R_trans; eauto|exact C]. Qed.
+
+Lemma good_refl s t : Inv s -> valid s t -> good s (t, s).
+Proof. intros HI HV. split; [exact HI|]. split; [apply R_refl|exact HV]. Qed.
+
+Ltac dbind Hs :=
+  match type of Hs with
+  | bind ?x _ = OK _ =>
+    let E := fresh "E" in destruct x eqn:E; cbn [bind] in Hs; [|discriminate Hs|discriminate Hs]
+  end.
+
+Lemma m_get_node_valid t s a i c : Inv s -> valid s a -> Mgetn t s a i = OK c -> valid s c.
+Proof. unfold m_get_node. intros HI HV Hs. dbind Hs. exact (get_ok _ _ _ _ HI HV Hs). Qed.
+
+Lemma m_set_node_good t s a i v r :
+  Inv s -> valid s a -> valid s v -> Msetn t s a i v = OK r -> good s r.
+Proof. unfold m_set_node. intros HI HA HV Hs. dbind Hs. exact (set_ok _ _ _ _ _ _ HI HA HV Hs). Qed.
+
+Lemma m_set_length_good s a len r : Inv s -> valid s a -> Msetlen s a len = OK r -> good s r.
+Proof.
+  unfold m_set_length. intros HI HA Hs.
+  pose proof (leaf_ok s (pad32 (le_bytes 8 len)) HI) as (I1 & R1 & V1).
+  destruct (s_leaf s (pad32 (le_bytes 8 len))) as [l s1]. simpl in *.
+  eapply good_trans; [exact R1|].
+  exact (set_ok _ _ _ _ _ _ I1 (valid_mono _ _ _ R1 HA) V1 Hs).
+Qed.
+
+(* leaf allocation followed by a continuation on the new store *)
+Lemma leaf_then s c a (k : T -> St -> res (T * St)) r :
+  Inv s -> valid s a ->
+  (forall l s1, Inv s1 -> valid s1 a -> valid s1 l -> k l s1 = OK r -> good s1 r) ->
+  (let '(l, s1) := s_leaf s c in k l s1) = OK r -> good s r.
+Proof.
+  intros HI HA Hk Hs. pose proof (leaf_ok s c HI) as (I1 & R1 & V1).
+  destruct (s_leaf s c) as [l s1]. simpl in *.
+  eapply good_trans; [exact R1|]. eapply Hk; eauto.
+Qed.
+
+(* s_set followed by m_set_length *)
+Lemma set_then_length s a g e v len r :
+  Inv s -> valid s a -> valid s v ->
+  (do x <- s_set s a g e v; let '(a1, s2) := x in Msetlen s2 a1 len) = OK r -> good s r.
+Proof.
+  intros HI HA HV Hs. dbind Hs. destruct a0 as [a1 s2].
+  destruct (set_ok _ _ _ _ _ _ HI HA HV E) as (I2 & R2 & V2). simpl in *.
+  eapply good_trans; [exact R2|]. eapply m_set_length_good; eauto.
+Qed.
+
+Lemma m_packed_set_good t e s a i v r :
+  Inv s -> valid s a -> Mpset t e s a i v = OK r -> good s r.
+Proof.
+  unfold m_packed_set. intros HI HA Hs. dbind Hs. dbind Hs. dbind Hs.
+  eapply leaf_then; [exact HI|exact HA| |exact Hs].
+  intros l s1 I1 A1 L1 Hk. cbv beta in Hk. eapply m_set_node_good; [exact I1|exact A1|exact L1|exact Hk].
+Qed.
+
+Lemma m_basic_append_good t e limit s a v r :
+  Inv s -> valid s a -> Mbapp t e limit s a v = OK r -> good s r.
+Proof.
+  unfold m_basic_append. intros HI HA Hs. dbind Hs.
+  destruct (limit <=? a0); [discriminate|]. dbind Hs. dbind Hs.
+  eapply leaf_then; [exact HI|exact HA| |exact Hs].
+  intros l s1 I1 A1 L1 Hk. cbv beta in Hk. eapply set_then_length; [exact I1|exact A1|exact L1|exact Hk].
+Qed.
+
+Lemma m_basic_pop_good t e limit s a r :
+  Inv s -> valid s a -> Mbpop t e limit s a = OK r -> good s r.
+Proof.
+  unfold m_basic_pop. intros HI HA Hs. dbind Hs.
+  destruct (a0 =? 0); [discriminate|]. dbind Hs. dbind Hs. dbind Hs. dbind Hs. dbind Hs.
+  eapply leaf_then; [exact HI|exact HA| |exact Hs].
+  intros l s1 I1 A1 L1 Hk. cbv beta in Hk. eapply set_then_length; [exact I1|exact A1|exact L1|exact Hk].
+Qed.
+
+Lemma m_bit_set_good t s a i b r :
+  Inv s -> valid s a -> Mbitset t s a i b = OK r -> good s r.
+Proof.
+  unfold m_bit_set. intros HI HA Hs. dbind Hs. dbind Hs.
+  eapply leaf_then; [exact HI|exact HA| |exact Hs].
+  intros l s1 I1 A1 L1 Hk. cbv beta in Hk. eapply m_set_node_good; [exact I1|exact A1|exact L1|exact Hk].
+Qed.
+
+Lemma m_bit_append_good t limit s a b r :
+  Inv s -> valid s a -> Mbitapp t limit s a b = OK r -> good s r.
+Proof.
+  unfold m_bit_append. intros HI HA Hs. dbind Hs.
+  destruct (limit <=? a0); [discriminate|]. dbind Hs. dbind Hs.
+  eapply leaf_then; [exact HI|exact HA| |exact Hs].
+  intros l s1 I1 A1 L1 Hk. cbv beta in Hk. eapply set_then_length; [exact I1|exact A1|exact L1|exact Hk].
+Qed.
+
+Lemma m_bit_pop_good t limit s a r :
+  Inv s -> valid s a -> Mbitpop t limit s a = OK r -> good s r.
+Proof.
+  unfold m_bit_pop. intros HI HA Hs. dbind Hs.
+  destruct (a0 =? 0); [discriminate|]. dbind Hs. dbind Hs. dbind Hs.
+  eapply leaf_then; [exact HI|exact HA| |exact Hs].
+  intros l s1 I1 A1 L1 Hk. cbv beta in Hk. eapply set_then_length; [exact I1|exact A1|exact L1|exact Hk].
+Qed.
+
+Lemma m_complex_append_good t limit s a v r :
+  Inv s -> valid s a -> valid s v -> Mcapp t limit s a v = OK r -> good s r.
+Proof.
+  unfold m_complex_append. intros HI HA HV Hs. dbind Hs.
+  destruct (limit <=? a0); [discriminate|]. dbind Hs.
+  eapply set_then_length; [exact HI|exact HA|exact HV|exact Hs].
+Qed.
+
+Lemma m_complex_pop_good t limit s a r :
+  Inv s -> valid s a -> Mcpop t limit s a = OK r -> good s r.
+Proof.
+  unfold m_complex_pop. intros HI HA Hs. dbind Hs.
+  destruct (a0 =? 0); [discriminate|]. dbind Hs.
+  eapply set_then_length; [exact HI|exact HA|apply zero_ok; exact HI|exact Hs].
+Qed.
+
+Lemma m_slot_set_good t s a i v r :
+  Inv s -> valid s a -> valid s v -> Mslot t s a i v = OK r -> good s r.
+Proof.
+  unfold m_slot_set. intros HI HA HV Hs. destruct t; try discriminate.
+  - destruct (_ <=? i); [discriminate|]. eapply m_set_node_good; [exact HI|exact HA|exact HV|exact Hs].
+  - dbind Hs. eapply m_set_node_good; [exact HI|exact HA|exact HV|exact Hs].
+  - destruct (_ <=? i); [discriminate|]. eapply m_set_node_good; [exact HI|exact HA|exact HV|exact Hs].
+Qed.
+
+Lemma alloc_node_good n : forall s, Inv s -> good s (Alloc s n).
+Proof.
+  induction n as [c|l IHl r IHr]; intros s HI; simpl.
+  - now apply leaf_ok.
+  - destruct (IHl s HI) as (I1 & R1 & V1). destruct (Alloc s l) as [l' s1]. simpl in *.
+    destruct (IHr s1 I1) as (I2 & R2 & V2). destruct (Alloc s1 r) as [r' s2]. simpl in *.
+    eapply good_trans; [eapply R_trans; eauto|]. apply pair_ok; eauto.
+Qed.
+
+(* machine invariant *)
+Definition SInv (st : mstate T St) : Prop :=
+  Inv (Sto st) /\ forall k x, nth_error (Hdl st) k = Some x -> valid (Sto st) (h_back T x).
+
+Lemma resolve_src_good st x want r :
+  SInv st -> Resolve st x want = OK r -> good (Sto st) r.
+Proof.
+  intros [HI HV] Hs. unfold resolve_src in Hs.
+  assert (Halloc : forall t v, (do n <- from_val zh t v; OK (Alloc (Sto st) n)) = OK r -> good (Sto st) r).
+  { intros t v Hd. dbind Hd. injection Hd as <-. now apply alloc_node_good. }
+  destruct x as [t v|h|].
+  - destruct t; try (eapply Halloc; exact Hs).
+    destruct v; try (eapply Halloc; exact Hs).
+    injection Hs as <-. apply good_refl; [exact HI|]. destruct b; auto.
+  - dbind Hs. injection Hs as <-. apply good_refl; [exact HI|].
+    unfold get_handle in E. destruct (nth_error (Hdl st) h) eqn:Hn; [|discriminate].
+    injection E as <-. eapply HV; eauto.
+  - injection Hs as <-. now apply leaf_ok.
+Qed.
+
+Lemma mutate_good st x o r :
+  SInv st -> valid (Sto st) (h_back T x) -> Mutate st x o = OK r -> good (Sto st) r.
+Proof.
+  intros HS HA Hs. pose proof HS as [HI HV]. unfold mutate in Hs.
+  assert (Hres : forall v want (k : T -> St -> res (T * St)),
+            (forall b s1, Inv s1 -> valid s1 (h_back T x) -> valid s1 b -> k b s1 = OK r -> good s1 r) ->
+            (do r0 <- Resolve st v want; let '(b, s1) := r0 in k b s1) = OK r -> good (Sto st) r).
+  { intros v want k Hk Hd. dbind Hd. destruct a as [b s1].
+    destruct (resolve_src_good _ _ _ _ HS E) as (I1 & R1 & V1). simpl in *.
+    eapply good_trans; [exact R1|]. eapply Hk; eauto. }
+  destruct o as [h i|h|h|h i v|h v|h|h sel v]; try discriminate.
+  - (* OSet *)
+    destruct (h_ty T x) eqn:Et; try discriminate.
+    + destruct (_ <=? i); [discriminate|]. dbind Hs. eapply m_bit_set_good; [exact HI|exact HA|exact Hs].
+    + dbind Hs. dbind Hs. eapply m_bit_set_good; [exact HI|exact HA|exact Hs].
+    + destruct (is_basic_elem _).
+      * destruct (_ <=? i); [discriminate|]. dbind Hs. eapply m_packed_set_good; [exact HI|exact HA|exact Hs].
+      * eapply Hres; [|exact Hs]. intros b s1 I1 A1 B1 Hk. cbv beta in Hk. eapply m_slot_set_good; [exact I1|exact A1|exact B1|exact Hk].
+    + destruct (is_basic_elem _).
+      * dbind Hs. dbind Hs. eapply m_packed_set_good; [exact HI|exact HA|exact Hs].
+      * eapply Hres; [|exact Hs]. intros b s1 I1 A1 B1 Hk. cbv beta in Hk. eapply m_slot_set_good; [exact I1|exact A1|exact B1|exact Hk].
+    + eapply Hres; [|exact Hs]. intros b s1 I1 A1 B1 Hk. cbv beta in Hk. eapply m_slot_set_good; [exact I1|exact A1|exact B1|exact Hk].
+  - (* OAppend *)
+    destruct (h_ty T x) eqn:Et; try discriminate.
+    + dbind Hs. eapply m_bit_append_good; [exact HI|exact HA|exact Hs].
+    + destruct (is_basic_elem _).
+      * dbind Hs. eapply m_basic_append_good; [exact HI|exact HA|exact Hs].
+      * eapply Hres; [|exact Hs]. intros b s1 I1 A1 B1 Hk. cbv beta in Hk. eapply m_complex_append_good; [exact I1|exact A1|exact B1|exact Hk].
+  - (* OPop *)
+    destruct (h_ty T x) eqn:Et; try discriminate.
+    + eapply m_bit_pop_good; [exact HI|exact HA|exact Hs].
+    + destruct (is_basic_elem _).
+      * eapply m_basic_pop_good; [exact HI|exact HA|exact Hs].
+      * eapply m_complex_pop_good; [exact HI|exact HA|exact Hs].
+  - (* OChange *)
+    destruct (h_ty T x) eqn:Et; try discriminate.
+    destruct (_ <=? sel); [discriminate|].
+    assert (Hk : forall b s1, Inv s1 -> valid s1 (h_back T x) -> valid s1 b ->
+               (let '(sl, s2) := s_leaf s1 (pad32 [byte_of_N sel]) in OK (s_pair s2 b sl)) = OK r ->
+               good s1 r).
+    { intros b s1 I1 A1 B1 Hk.
+      pose proof (leaf_ok s1 (pad32 [byte_of_N sel]) I1) as (I2 & R2 & V2).
+      destruct (s_leaf s1 (pad32 [byte_of_N sel])) as [sl s2]. simpl in *.
+      injection Hk as <-. eapply good_trans; [exact R2|]. apply pair_ok; eauto. }
+    destruct v as [t0 v0|h0|].
+    + eapply Hres; [exact Hk|exact Hs].
+    + eapply Hres; [exact Hk|exact Hs].
+    + destruct (negb (sel =? 0)); [discriminate|]. eapply Hres; [exact Hk|exact Hs].
+Qed.
+
+Lemma SInv_put_back st h b s :
+  SInv st -> Inv s -> R (Sto st) s -> valid s b -> SInv (put_back T St st h b s).
+Proof.
+  intros [HI HV] Is Rs Vb. unfold put_back.
+  destruct (nth_error (Hdl st) h) as [x|] eqn:Hx; simpl.
+  2:{ split; [exact Is|]. intros k y Hy. simpl in *. eapply valid_mono; eauto. }
+  assert (Hh : (h < length (Hdl st))%nat) by (apply nth_error_Some; congruence).
+  split; [exact Is|]. simpl. intros k y Hy.
+  destruct (PeanoNat.Nat.eq_dec k h) as [->|Hne].
+  - rewrite nth_error_list_set_same in Hy by exact Hh. injection Hy as <-. exact Vb.
+  - rewrite nth_error_list_set_other in Hy by exact Hne. eapply valid_mono; eauto.
+Qed.
+
+Lemma set_backing_inv fuel : forall st h b s st' r,
+  SInv st -> Inv s -> R (Sto st) s -> valid s b ->
+  SetB fuel st h b s = (st', r) -> SInv st' /\ R (Sto st) (Sto st').
+Proof.
+  induction fuel as [|f IH]; intros st h b s st' r HS Is Rs Vb Hs.
+  - simpl in Hs. injection Hs as <- _. split; [now apply SInv_put_back|].
+    destruct (put_back_handles st h b s) as (_ & _ & _ & ->). exact Rs.
+  - cbn [set_backing] in Hs.
+    pose proof (SInv_put_back st h b s HS Is Rs Vb) as HS1.
+    destruct (put_back_handles st h b s) as (_ & _ & _ & Est).
+    set (st1 := put_back T St st h b s) in *.
+    assert (Hbase : SInv st1 /\ R (Sto st) (Sto st1)) by (split; [exact HS1|rewrite Est; exact Rs]).
+    destruct (nth_error (Hdl st1) h) as [x|] eqn:Hx; [|injection Hs as <- _; exact Hbase].
+    destruct (h_hook T x) as [[p i]|] eqn:Hh; [|injection Hs as <- _; exact Hbase].
+    destruct (nth_error (Hdl st1) p) as [px|] eqn:Hp; [|injection Hs as <- _; exact Hbase].
+    destruct (Mslot (h_ty T px) (Sto st1) (h_back T px) i b) as [[pb s']| |] eqn:Em;
+      [|injection Hs as <- _; exact Hbase|injection Hs as <- _; exact Hbase].
+    pose proof HS1 as [I1 V1].
+    assert (Vb1 : valid (Sto st1) b) by (rewrite Est; exact Vb).
+    destruct (m_slot_set_good _ _ _ _ _ _ I1 (V1 _ _ Hp) Vb1 Em) as (I2 & R2 & V2). simpl in *.
+    destruct (IH _ _ _ _ _ _ HS1 I2 R2 V2 Hs) as [HS' R'].
+    split; [exact HS'|]. eapply R_trans; [|exact R']. rewrite Est. exact Rs.
+Qed.
+
+Lemma SInv_push st x : SInv st -> valid (Sto st) (h_back T x) ->
+  SInv (mkM T St (Sto st) (Hdl st ++ [x])).
+Proof.
+  intros [HI HV] Vx. split; [exact HI|]. simpl. intros k y Hy.
+  destruct (Compare_dec.lt_dec k (length (Hdl st))) as [Hlt|Hge].
+  - rewrite nth_error_app1 in Hy by exact Hlt. eapply HV; eauto.
+  - rewrite nth_error_app2 in Hy by lia. destruct (k - length (Hdl st))%nat as [|d].
+    + simpl in Hy. injection Hy as <-. exact Vx.
+    + simpl in Hy. destruct d; discriminate.
+Qed.
+
+Lemma get_handle_valid st h x : SInv st -> get_handle T St st h = OK x -> valid (Sto st) (h_back T x).
+Proof.
+  intros [_ HV] Hg. unfold get_handle in Hg. destruct (nth_error (Hdl st) h) eqn:Hn; [|discriminate].
+  injection Hg as <-. eapply HV; eauto.
+Qed.
+
+Theorem step_inv st o st' r :
+  SInv st -> Step st o = (st', r) -> SInv st' /\ R (Sto st) (Sto st').
+Proof.
+  intros HS Hs. pose proof HS as [HI HV].
+  assert (Hid : SInv st /\ R (Sto st) (Sto st)) by (split; [exact HS|apply R_refl]).
+  assert (Hmut : forall h x, get_handle T St st h = OK x ->
+     (let '(st1, r0) :=
+        match Mutate st x o with
+        | OK (b, s') =>
+          let '(st1, r) := SetB (hook_fuel T St st) st h b s' in
+          (st1, match r with OK _ => OK MUnit | Err => Err | Panic => Panic end)
+        | Err => (st, Err)
+        | Panic => (st, Panic)
+        end in (st1, r0)) = (st', r) -> SInv st' /\ R (Sto st) (Sto st')).
+  { intros h x Hg Hm.
+    destruct (Mutate st x o) as [[b s']| |] eqn:Em; [|injection Hm as <- _; exact Hid|injection Hm as <- _; exact Hid].
+    destruct (mutate_good _ _ _ _ HS (get_handle_valid _ _ _ HS Hg) Em) as (I1 & R1 & V1).
+    cbn [fst snd] in I1, R1, V1.
+    destruct (SetB (hook_fuel T St st) st h b s') as [st1 r1] eqn:Esb. injection Hm as <- _.
+    exact (set_backing_inv _ _ _ _ _ _ _ HS I1 R1 V1 Esb). }
+  unfold step in Hs.
+  destruct o as [h i|h|h|h i v|h v|h|h sel v].
+  - destruct (get_handle T St st h) as [x| |] eqn:Hg; [|injection Hs as <- _; exact Hid|injection Hs as <- _; exact Hid].
+    match type of Hs with (match ?e with Some _ => _ | None => _ end) = _ =>
+      destruct e as [e0|]; [|injection Hs as <- _; exact Hid] end.
+    destruct (Mgetn (h_ty T x) (Sto st) (h_back T x) i) as [c| |] eqn:Eg;
+      [|injection Hs as <- _; exact Hid|injection Hs as <- _; exact Hid].
+    unfold push_handle in Hs. injection Hs as <- _. simpl. split; [|apply R_refl].
+    apply SInv_push; [exact HS|]. simpl.
+    eapply m_get_node_valid; [exact HI| |exact Eg]. eapply get_handle_valid; eauto.
+  - destruct (get_handle T St st h) as [x| |] eqn:Hg; [|injection Hs as <- _; exact Hid|injection Hs as <- _; exact Hid].
+    destruct (h_ty T x); try (injection Hs as <- _; exact Hid).
+    match type of Hs with (match ?e with OK _ => _ | Err => _ | Panic => _ end) = _ =>
+      destruct e as [[[o1|] c]| |] eqn:Ev; try (injection Hs as <- _; exact Hid) end.
+    unfold push_handle in Hs. injection Hs as <- _. simpl. split; [|apply R_refl].
+    apply SInv_push; [exact HS|]. simpl.
+    dbind Ev. dbind Ev. destruct (negb _); [discriminate|]. destruct (_ <=? _); [discriminate|].
+    dbind Ev. injection Ev as _ <-. eapply get_ok; [exact HI| |exact E1]. eapply get_handle_valid; eauto.
+  - destruct (get_handle T St st h) as [x| |] eqn:Hg; [|injection Hs as <- _; exact Hid|injection Hs as <- _; exact Hid].
+    unfold push_handle in Hs. injection Hs as <- _. simpl. split; [|apply R_refl].
+    apply SInv_push; [exact HS|]. simpl. eapply get_handle_valid; eauto.
+  - destruct (get_handle T St st h) as [x| |] eqn:Hg; [|injection Hs as <- _; exact Hid|injection Hs as <- _; exact Hid].
+    eapply (Hmut h x Hg).
+    destruct (Mutate st x (OSet h i v)) as [[b s']| |]; [|exact Hs|exact Hs].
+    destruct (SetB (hook_fuel T St st) st h b s'). exact Hs.
+  - destruct (get_handle T St st h) as [x| |] eqn:Hg; [|injection Hs as <- _; exact Hid|injection Hs as <- _; exact Hid].
+    eapply (Hmut h x Hg).
+    destruct (Mutate st x (OAppend h v)) as [[b s']| |]; [|exact Hs|exact Hs].
+    destruct (SetB (hook_fuel T St st) st h b s'). exact Hs.
+  - destruct (get_handle T St st h) as [x| |] eqn:Hg; [|injection Hs as <- _; exact Hid|injection Hs as <- _; exact Hid].
+    eapply (Hmut h x Hg).
+    destruct (Mutate st x (OPop h)) as [[b s']| |]; [|exact Hs|exact Hs].
+    destruct (SetB (hook_fuel T St st) st h b s'). exact Hs.
+  - destruct (get_handle T St st h) as [x| |] eqn:Hg; [|injection Hs as <- _; exact Hid|injection Hs as <- _; exact Hid].
+    eapply (Hmut h x Hg).
+    destruct (Mutate st x (OChange h sel v)) as [[b s']| |]; [|exact Hs|exact Hs].
+    destruct (SetB (hook_fuel T St st) st h b s'). exact Hs.
+Qed.
+
 End Generic.
+
+(* ------------------------------------------------------------------------------------- *)
+(* 6. the heap machine HM                                                                 *)
+(* ------------------------------------------------------------------------------------- *)
+
+(* An event of a history: a machine step, or a hash-tree-root request on the backing of a
+   handle (which only writes memos).  [hm_run] replays a history. *)
+Inductive hev := EStep (o : op) | EHash (k : nat).
+
+Section HeapMachine.
+Variable H : chunk -> chunk -> chunk.
+Variable zh : nat -> chunk.
+
+Definition hm_inv (st : hm_state) : Prop :=
+  heap_wf (m_store _ _ st) /\ zeros_ok zh (m_store _ _ st) /\
+  (true_addr < hp_next (m_store _ _ st))%positive /\
+  forall k x, nth_error (m_handles _ _ st) k = Some x ->
+              (h_back _ x < hp_next (m_store _ _ st))%positive.
+
+(* HashTreeRoot of handle k: (root, state with the memos written, number of pair hashes) *)
+Definition hm_hash (st : hm_state) (k : nat) : res (chunk * hm_state * N) :=
+  match nth_error (m_handles _ _ st) k with
+  | Some x =>
+    match h_merkle H (Pos.to_nat (h_back _ x)) (m_store _ _ st) (h_back _ x) with
+    | OK (r, h', c) => OK (r, mkM _ _ h' (m_handles _ _ st), c)
+    | Err => Err
+    | Panic => Panic
+    end
+  | None => Err
+  end.
+
+Definition hm_event (st : hm_state) (e : hev) : hm_state :=
+  match e with
+  | EStep o => fst (hm_step zh st o)
+  | EHash k => match hm_hash st k with OK (_, st', _) => st' | _ => st end
+  end.
+
+Definition hm_run (st : hm_state) (evs : list hev) : hm_state := fold_left hm_event evs st.
+
+Definition h_inv (h : heap) : Prop :=
+  heap_wf h /\ zeros_ok zh h /\ (true_addr < hp_next h)%positive.
+Definition h_valid (h : heap) (a : addr) : Prop := (a < hp_next h)%positive.
+
+Lemma hm_inv_SInv st : hm_inv st <-> SInv addr heap h_inv h_valid st.
+Proof. unfold hm_inv, SInv, h_inv, h_valid. tauto. Qed.
+
+Lemma h_alloc_good h c :
+  h_inv h ->
+  (forall m l r, c = CPair m l r ->
+     m = zero_chunk /\ (l < hp_next h)%positive /\ (r < hp_next h)%positive) ->
+  good addr heap h_inv h_valid heap_grow h (h_alloc h c).
+Proof.
+  intros (Hwf & Hz & Ht) Hc. unfold good, h_inv, h_valid.
+  pose proof (heap_wf_fresh _ Hwf) as Hf.
+  assert (Hg : heap_grow h (snd (h_alloc h c))).
+  { apply h_alloc_grow; [exact Hf|]. intros m l r E. now destruct (Hc _ _ _ E). }
+  split; [split; [|split]|split].
+  - apply h_alloc_wf; [exact Hwf|]. intros m l r E. now destruct (Hc _ _ _ E) as (_ & A & B).
+  - eapply zeros_ok_ext; [apply Hg|exact Hz].
+  - rewrite h_alloc_next. lia.
+  - exact Hg.
+  - rewrite h_alloc_next. simpl. lia.
+Qed.
+
+Lemma h_setter_good s a g e v r :
+  h_inv s -> h_valid s a -> h_valid s v -> h_setter zh s a g e v = OK r ->
+  good addr heap h_inv h_valid heap_grow s r.
+Proof.
+  intros (Hwf & Hz & Ht) Ha Hv Hs. destruct r as [a' h']. unfold h_setter in Hs.
+  destruct (heap_set_wf zh _ _ _ _ _ _ _ Hwf Hz Hv Hs) as (He & Hwf' & Hz' & Ha').
+  unfold good, h_inv, h_valid. simpl. split; [split; [exact Hwf'|split; [exact Hz'|]]|split].
+  - destruct He as [_ Hle]. lia.
+  - eapply h_set_path_grow; [apply heap_wf_fresh; exact Hwf|exact Hs].
+  - exact Ha'.
+Qed.
+
+Lemma hm_step_inv st o st' r :
+  hm_inv st -> hm_step zh st o = (st', r) ->
+  hm_inv st' /\ heap_grow (m_store _ _ st) (m_store _ _ st').
+Proof.
+  intros Hi Hs. rewrite hm_inv_SInv in Hi. rewrite hm_inv_SInv. unfold hm_step in Hs.
+  eapply (step_inv addr heap h_getter (h_setter zh) h_leaf h_pair h_chunk zero_addr true_addr zh
+            h_inv h_valid heap_grow); try eassumption.
+  - apply heap_grow_refl.
+  - apply heap_grow_trans.
+  - intros s s' t [[_ Hle] _] Ht. unfold h_valid in *. lia.
+  - intros s c Hinv. apply h_alloc_good; [exact Hinv|]. intros m l r0 E. discriminate.
+  - intros s l r0 Hinv Hl Hr. apply h_alloc_good; [exact Hinv|].
+    intros m l0 r1 E. injection E as <- <- <-. auto.
+  - intros s a g e v r0. apply h_setter_good.
+  - intros s a g t (Hwf & _) Ha Hg. eapply h_get_path_lt; eauto.
+  - intros s (Hwf & Hz & _). eapply heap_wf_lt; [exact Hwf|]. apply Hz. lia.
+  - intros s (_ & _ & Ht). exact Ht.
+Qed.
+
+(* the step, as a function *)
+Lemma hm_step_inv' st o :
+  hm_inv st -> hm_inv (fst (hm_step zh st o)) /\
+               heap_grow (m_store _ _ st) (m_store _ _ (fst (hm_step zh st o))).
+Proof. intros Hi. destruct (hm_step zh st o) as [st' r] eqn:E. eapply hm_step_inv; eauto. Qed.
+
+(* ---- C05: persistence ---- *)
+Lemma hm_step_persistent st o :
+  hm_inv st -> heap_ext (m_store _ _ st) (m_store _ _ (fst (hm_step zh st o))).
+Proof. intros Hi. apply (hm_step_inv' st o Hi). Qed.
+
+(* ---- C06: memos are never stale ---- *)
+Lemma memo_ok_init : memo_ok H (heap_init zh).
+Proof.
+  assert (Hno : forall k a m l r, h_cell (init_cells zh k heap0) a <> Some (CPair m l r)).
+  { induction k as [|k IH]; intros a m l r Hc.
+    - unfold h_cell in Hc. simpl in Hc. rewrite PositiveMap.gempty in Hc. discriminate.
+    - cbn [init_cells] in Hc. destruct (Pos.eq_dec a (hp_next (init_cells zh k heap0))) as [->|Hne].
+      + rewrite h_alloc_new in Hc. discriminate.
+      + rewrite h_alloc_old in Hc by exact Hne. eapply IH; eauto. }
+  intros a m l r n Hc. exfalso. unfold heap_init in Hc. fold heap0 in Hc.
+  destruct (Pos.eq_dec a (hp_next (init_cells zh 65 heap0))) as [->|Hne].
+  - rewrite h_alloc_new in Hc. discriminate.
+  - rewrite h_alloc_old in Hc by exact Hne. eapply Hno; eauto.
+Qed.
+
+Lemma memo_closed_init : memo_closed (heap_init zh).
+Proof.
+  assert (Hno : forall k a m l r, h_cell (init_cells zh k heap0) a <> Some (CPair m l r)).
+  { induction k as [|k IH]; intros a m l r Hc.
+    - unfold h_cell in Hc. simpl in Hc. rewrite PositiveMap.gempty in Hc. discriminate.
+    - cbn [init_cells] in Hc. destruct (Pos.eq_dec a (hp_next (init_cells zh k heap0))) as [->|Hne].
+      + rewrite h_alloc_new in Hc. discriminate.
+      + rewrite h_alloc_old in Hc by exact Hne. eapply IH; eauto. }
+  intros a m l r Hc. exfalso. unfold heap_init in Hc. fold heap0 in Hc.
+  destruct (Pos.eq_dec a (hp_next (init_cells zh 65 heap0))) as [->|Hne].
+  - rewrite h_alloc_new in Hc. discriminate.
+  - rewrite h_alloc_old in Hc by exact Hne. eapply Hno; eauto.
+Qed.
+
+Lemma memo_ok_alloc_leaf h c : heap_wf h -> memo_ok H h -> memo_ok H (snd (h_leaf h c)).
+Proof.
+  intros Hwf. apply heap_grow_memo_ok; [exact Hwf|].
+  apply h_alloc_grow; [now apply heap_wf_fresh|]. discriminate.
+Qed.
+
+Lemma memo_ok_alloc_pair h l r : heap_wf h -> memo_ok H h -> memo_ok H (snd (h_pair h l r)).
+Proof.
+  intros Hwf. apply heap_grow_memo_ok; [exact Hwf|].
+  apply h_alloc_grow; [now apply heap_wf_fresh|]. intros m l0 r0 E. now injection E as <-.
+Qed.
+
+Lemma memo_ok_set_path h a p e v a' h' :
+  heap_wf h -> h_set_path zh h a p e v = OK (a', h') -> memo_ok H h -> memo_ok H h'.
+Proof.
+  intros Hwf Hs. apply heap_grow_memo_ok; [exact Hwf|].
+  eapply h_set_path_grow; [apply heap_wf_fresh; exact Hwf|exact Hs].
+Qed.
+
+Lemma hm_step_memo_ok st o :
+  hm_inv st -> memo_ok H (m_store _ _ st) -> memo_ok H (m_store _ _ (fst (hm_step zh st o))).
+Proof.
+  intros Hi. destruct (hm_step_inv' st o Hi) as [_ Hg]. apply heap_grow_memo_ok; [apply Hi|exact Hg].
+Qed.
+
+Lemma hm_step_memo_closed st o :
+  hm_inv st -> memo_closed (m_store _ _ st) -> memo_closed (m_store _ _ (fst (hm_step zh st o))).
+Proof. intros Hi. destruct (hm_step_inv' st o Hi) as [_ Hg]. now apply heap_grow_memo_closed. Qed.
+
+(* ---- hash requests on a handle ---- *)
+Lemma hm_hash_spec st k x :
+  hm_inv st -> nth_error (m_handles _ _ st) k = Some x ->
+  exists r h' c,
+    hm_hash st k = OK (r, mkM _ _ h' (m_handles _ _ st), c) /\
+    h_merkle H (Pos.to_nat (h_back _ x)) (m_store _ _ st) (h_back _ x) = OK (r, h', c) /\
+    hm_inv (mkM _ _ h' (m_handles _ _ st)).
+Proof.
+  intros (Hwf & Hz & Ht & Hv) Hx. pose proof (Hv _ _ Hx) as Ha.
+  destruct (h_merkle_total H _ _ _ Hwf Ha (le_n _)) as (r & h' & c & E).
+  destruct (h_merkle_heap H _ _ _ _ _ _ Hwf Ha (le_n _) E) as (He & [Hn Hd] & Hwf' & _).
+  exists r, h', c. unfold hm_hash. rewrite Hx, E. split; [reflexivity|]. split; [reflexivity|].
+  unfold hm_inv. simpl. split; [exact Hwf'|]. split; [|split].
+  - intros d Hd'. eapply ext_memo_leaf; [exact He|]. now apply Hz.
+  - rewrite Hn. exact Ht.
+  - intros j y Hy. rewrite Hn. eapply Hv; eauto.
+Qed.
+
+Lemma hm_event_inv st e :
+  hm_inv st ->
+  hm_inv (hm_event st e) /\ heap_ext_memo (m_store _ _ st) (m_store _ _ (hm_event st e)) /\
+  (memo_ok H (m_store _ _ st) -> memo_ok H (m_store _ _ (hm_event st e))) /\
+  handles_le (m_handles _ _ st) (m_handles _ _ (hm_event st e)).
+Proof.
+  intros Hi. destruct e as [o|k]; simpl.
+  - destruct (hm_step_inv' st o Hi) as [Hi' Hg]. split; [exact Hi'|].
+    split; [apply heap_ext_ext_memo, Hg|]. split; [now apply hm_step_memo_ok|].
+    destruct (hm_step zh st o) as [st' r] eqn:E. simpl. unfold hm_step in E.
+    now destruct (step_local _ _ _ _ _ _ _ _ _ _ _ _ _ _ E) as (L & _).
+  - destruct (nth_error (m_handles _ _ st) k) as [x|] eqn:Hx.
+    + destruct (hm_hash_spec st k x Hi Hx) as (r & h' & c & E & Em & Hi'). rewrite E.
+      pose proof Hi as (Hwf & _ & _ & Hv).
+      split; [exact Hi'|]. simpl.
+      destruct (h_merkle_heap H _ _ _ _ _ _ Hwf (Hv _ _ Hx) (le_n _) Em) as (He & _).
+      split; [exact He|]. split; [|apply handles_le_refl].
+      intros Hok. destruct (habs_total _ _ Hwf (Hv _ _ Hx)) as [n Hn].
+      now destruct (h_merkle_root H _ _ _ _ _ _ _ Hwf Hok Hn (le_n _) Em).
+    + unfold hm_hash. rewrite Hx. split; [exact Hi|]. split; [apply heap_ext_memo_refl|].
+      split; [auto|apply handles_le_refl].
+Qed.
+
+Lemma hm_run_inv evs : forall st,
+  hm_inv st ->
+  hm_inv (hm_run st evs) /\ heap_ext_memo (m_store _ _ st) (m_store _ _ (hm_run st evs)) /\
+  (memo_ok H (m_store _ _ st) -> memo_ok H (m_store _ _ (hm_run st evs))) /\
+  handles_le (m_handles _ _ st) (m_handles _ _ (hm_run st evs)).
+Proof.
+  induction evs as [|e evs IH]; intros st Hi; simpl.
+  - split; [exact Hi|]. split; [apply heap_ext_memo_refl|]. split; [auto|apply handles_le_refl].
+  - destruct (hm_event_inv st e Hi) as (Hi1 & He1 & Hok1 & Hl1).
+    destruct (IH _ Hi1) as (Hi2 & He2 & Hok2 & Hl2).
+    split; [exact Hi2|]. split; [eapply heap_ext_memo_trans; eauto|].
+    split; [auto|eapply handles_le_trans; eauto].
+Qed.
+
+(* C05: content and root of every node obtained before the history are the same afterwards *)
+Lemma hm_run_abs_stable st evs a n :
+  hm_inv st -> (a < hp_next (m_store _ _ st))%positive ->
+  (habs (m_store _ _ (hm_run st evs)) a n <-> habs (m_store _ _ st) a n).
+Proof.
+  intros Hi Ha. destruct (hm_run_inv evs st Hi) as (_ & He & _). split.
+  - intros Hn. eapply habs_ext_memo_inv; eauto. apply Hi.
+  - now apply habs_ext_memo.
+Qed.
+
+Lemma hm_run_zeros st evs :
+  hm_inv st ->
+  (forall d, (d <= 64)%nat ->
+     h_cell (m_store _ _ (hm_run st evs)) (zero_addr d) = Some (CLeaf (zh d))) /\
+  (forall c, h_cell (m_store _ _ st) true_addr = Some (CLeaf c) ->
+     h_cell (m_store _ _ (hm_run st evs)) true_addr = Some (CLeaf c)).
+Proof.
+  intros Hi. destruct (hm_run_inv evs st Hi) as (Hi' & He & _). split.
+  - apply Hi'.
+  - intros c Hc. eapply ext_memo_leaf; eauto.
+Qed.
+
+End HeapMachine.
+
+(* ------------------------------------------------------------------------------------- *)
+(* 7. C05: a copy is detached                                                             *)
+(* ------------------------------------------------------------------------------------- *)
+
+(* the new handle k: its chain is {k}, and it is on the chain of no other handle *)
+Lemma copy_chain (hs : list (handle addr)) c j :
+  hooks_wf hs -> h_hook _ c = None ->
+  (on_chain (hs ++ [c]) (length hs) j -> j = length hs) /\
+  (on_chain (hs ++ [c]) j (length hs) -> j = length hs).
+Proof.
+  intros Hw Hc.
+  assert (Hk : nth_error (hs ++ [c]) (length hs) = Some c).
+  { rewrite nth_error_app2 by lia. now rewrite PeanoNat.Nat.sub_diag. }
+  assert (Hw' : hooks_wf (hs ++ [c])).
+  { apply hooks_wf_app; [exact Hw|]. intros p i E. congruence. }
+  split.
+  - intros Hch. inversion Hch as [|j0 y p i k0 Hy Hh Hc0]; subst; [reflexivity|].
+    rewrite Hk in Hy. injection Hy as <-. congruence.
+  - intros Hch. pose proof (on_chain_le_idx _ _ _ Hw' Hch) as Hle.
+    inversion Hch as [|j0 y p i k0 Hy Hh Hc0]; subst; [reflexivity|].
+    assert (Hj : (j < length (hs ++ [c]))%nat) by (apply nth_error_Some; congruence).
+    rewrite app_length in Hj. simpl in Hj.
+    assert (j = length hs) by lia. subst j. rewrite Hk in Hy. injection Hy as <-. congruence.
+Qed.
+
+Section Detached.
+Variable H : chunk -> chunk -> chunk.
+Variable zh : nat -> chunk.
+
+Local Notation Hdl st := (m_handles addr heap st).
+
+Lemma hm_step_local st o :
+  handles_le (Hdl st) (Hdl (fst (hm_step zh st o))) /\
+  (hooks_wf (Hdl st) -> hooks_wf (Hdl (fst (hm_step zh st o)))) /\
+  (forall k x, nth_error (Hdl st) k = Some x -> ~ on_chain (Hdl st) (op_target o) k ->
+               nth_error (Hdl (fst (hm_step zh st o))) k = Some x).
+Proof.
+  destruct (hm_step zh st o) as [st' r] eqn:E. unfold hm_step in E.
+  exact (step_local _ _ _ _ _ _ _ _ _ _ _ _ _ _ E).
+Qed.
+
+(* what OCopy does *)
+Lemma hm_copy_spec st h st' r :
+  hm_step zh st (OCopy h) = (st', r) ->
+  match nth_error (Hdl st) h with
+  | Some x => r = OK (MHandle (length (Hdl st))) /\
+              st' = mkM _ _ (m_store _ _ st) (Hdl st ++ [mkH addr (h_ty _ x) (h_back _ x) None])
+  | None => r = Err /\ st' = st
+  end.
+Proof.
+  unfold hm_step, step, get_handle. destruct (nth_error (Hdl st) h) as [x|].
+  - unfold push_handle. intros E. injection E as <- <-. auto.
+  - intros E. injection E as <- <-. auto.
+Qed.
+
+(* family of a detached handle k: k and the sub-views obtained (transitively) from it.
+   A step on a member changes only members; a step on a non-member changes no member. *)
+Lemma detached_step_inside st o k x m y :
+  nth_error (Hdl st) k = Some x -> h_hook _ x = None ->
+  on_chain (Hdl st) (op_target o) k ->
+  nth_error (Hdl st) m = Some y -> ~ on_chain (Hdl st) m k ->
+  nth_error (Hdl (fst (hm_step zh st o))) m = Some y.
+Proof.
+  intros Hx Hn Hin Hy Hout. destruct (hm_step_local st o) as (_ & _ & Hloc).
+  apply Hloc; [exact Hy|]. intros Hc. apply Hout. eapply on_chain_stops; eauto.
+Qed.
+
+Lemma detached_step_outside st o k m y :
+  ~ on_chain (Hdl st) (op_target o) k ->
+  nth_error (Hdl st) m = Some y -> on_chain (Hdl st) m k ->
+  nth_error (Hdl (fst (hm_step zh st o))) m = Some y.
+Proof.
+  intros Hout Hy Hin. destruct (hm_step_local st o) as (_ & _ & Hloc).
+  apply Hloc; [exact Hy|]. intros Hc. apply Hout. eapply on_chain_trans; eauto.
+Qed.
+
+(* histories *)
+Fixpoint run_outside (st : hm_state) (k : nat) (evs : list hev) : Prop :=
+  match evs with
+  | [] => True
+  | e :: evs' =>
+    match e with EStep o => ~ on_chain (Hdl st) (op_target o) k | EHash _ => True end /\
+    run_outside (hm_event H zh st e) k evs'
+  end.
+
+Fixpoint run_inside (st : hm_state) (k : nat) (evs : list hev) : Prop :=
+  match evs with
+  | [] => True
+  | e :: evs' =>
+    match e with EStep o => on_chain (Hdl st) (op_target o) k | EHash _ => True end /\
+    run_inside (hm_event H zh st e) k evs'
+  end.
+
+Lemma hm_event_handles st e :
+  handles_le (Hdl st) (Hdl (hm_event H zh st e)) /\
+  (hooks_wf (Hdl st) -> hooks_wf (Hdl (hm_event H zh st e))) /\
+  (forall k x, nth_error (Hdl st) k = Some x ->
+     match e with EStep o => ~ on_chain (Hdl st) (op_target o) k | EHash _ => True end ->
+     nth_error (Hdl (hm_event H zh st e)) k = Some x).
+Proof.
+  destruct e as [o|j]; simpl.
+  - apply hm_step_local.
+  - unfold hm_hash. destruct (nth_error (Hdl st) j) as [x|]; [|split; [apply handles_le_refl|auto]].
+    destruct (h_merkle H _ _ _) as [[[r h'] c]| |]; simpl; (split; [apply handles_le_refl|auto]).
+Qed.
+
+Lemma run_outside_stable evs : forall st k m y,
+  run_outside st k evs -> nth_error (Hdl st) m = Some y -> on_chain (Hdl st) m k ->
+  nth_error (Hdl (hm_run H zh st evs)) m = Some y.
+Proof.
+  induction evs as [|e evs IH]; intros st k m y Hrun Hy Hin; simpl; [exact Hy|].
+  destruct Hrun as [He Hrun]. destruct (hm_event_handles st e) as (Hle & _ & Hloc).
+  assert (Hy' : nth_error (Hdl (hm_event H zh st e)) m = Some y).
+  { apply Hloc; [exact Hy|]. destruct e as [o|j]; [|exact I].
+    intros Hc. apply He. eapply on_chain_trans; eauto. }
+  eapply IH; [exact Hrun|exact Hy'|]. eapply on_chain_le; eauto.
+Qed.
+
+Lemma run_inside_stable evs : forall st k x m y,
+  hooks_wf (Hdl st) ->
+  nth_error (Hdl st) k = Some x -> h_hook _ x = None ->
+  run_inside st k evs -> nth_error (Hdl st) m = Some y -> ~ on_chain (Hdl st) m k ->
+  nth_error (Hdl (hm_run H zh st evs)) m = Some y.
+Proof.
+  induction evs as [|e evs IH]; intros st k x m y Hw Hx Hn Hrun Hy Hout; simpl; [exact Hy|].
+  destruct Hrun as [He Hrun]. destruct (hm_event_handles st e) as (Hle & Hw' & Hloc).
+  assert (Hy' : nth_error (Hdl (hm_event H zh st e)) m = Some y).
+  { apply Hloc; [exact Hy|]. destruct e as [o|j]; [|exact I].
+    intros Hc. apply Hout. eapply on_chain_stops; eauto. }
+  destruct Hle as [Hlen A]. destruct (A _ _ Hx) as (x' & Hx' & _ & Hk').
+  eapply IH; [apply Hw'; exact Hw|exact Hx'|congruence|exact Hrun|exact Hy'|].
+  intros Hc. apply Hout. eapply on_chain_le_inv; [split; [exact Hlen|exact A]|apply Hw'; exact Hw| |exact Hc].
+  apply nth_error_Some. congruence.
+Qed.
+
+End Detached.
+
+(* ------------------------------------------------------------------------------------- *)
+(* 8. C07: one hash per level of the written path                                         *)
+(* ------------------------------------------------------------------------------------- *)
+
+Lemma wcount_ext h h' a n : heap_ext h h' -> wcount h a n -> wcount h' a n.
+Proof.
+  intros [A _]. induction 1 as [a c Hc|a m l r n1 n2 Hc Hl IHl Hr IHr].
+  - eapply wc_leaf; eauto.
+  - eapply wc_pair; eauto.
+Qed.
+
+Lemma memoised_ext h h' a : heap_ext h h' -> memoised h a -> memoised h' a.
+Proof. intros He. apply memoised_ext_memo. now apply heap_ext_ext_memo. Qed.
+
+Section PathBound.
+Variable zh : nat -> chunk.
+
+Lemma h_step_children_wcount h a k e l r na :
+  (e = true -> zeros_ok zh h) -> h_step_children zh h a k e = OK (l, r) -> wcount h a na ->
+  exists nl nr, wcount h l nl /\ wcount h r nr /\ (nl + nr <= na)%nat.
+Proof.
+  intros Hz Hs Wa. unfold h_step_children in Hs.
+  inversion Wa as [a0 c Hc|a0 m l0 r0 n1 n2 Hc Hl Hr]; subst; rewrite Hc in Hs.
+  - destruct e; [|discriminate]. destruct (chunk_eqb c (zh (S k))); [|discriminate].
+    destruct (N.of_nat k <=? 64) eqn:Ek; [|discriminate]. apply N.leb_le in Ek.
+    injection Hs as <- <-. exists 0%nat, 0%nat.
+    assert (W : wcount h (zero_addr k) 0) by (eapply wc_leaf; apply (Hz eq_refl); lia).
+    split; [exact W|]. split; [exact W|lia].
+  - injection Hs as <- <-. exists n1, n2. split; [exact Hl|]. split; [exact Hr|lia].
+Qed.
+
+(* a write adds at most one unset pair per level of its path *)
+Lemma h_set_path_wcount p : forall h a e v a' h' na nv,
+  heap_fresh h -> (e = true -> zeros_ok zh h) ->
+  h_set_path zh h a p e v = OK (a', h') -> wcount h a na -> wcount h v nv ->
+  exists n', wcount h' a' n' /\ (n' <= length p + na + nv)%nat.
+Proof.
+  induction p as [|b p IH]; intros h a e v a' h' na nv Hf Hz Hs Wa Wv.
+  - simpl in Hs. injection Hs as <- <-. exists nv. split; [exact Wv|simpl; lia].
+  - rewrite h_set_path_cons in Hs.
+    destruct (h_step_children zh h a (length p) e) as [[l r]| |] eqn:Est; cbn [bind] in Hs;
+      try discriminate.
+    destruct (h_step_children_wcount _ _ _ _ _ _ _ Hz Est Wa) as (nl & nr & Wl & Wr & Hle).
+    destruct b.
+    + destruct (h_set_path zh h r p e v) as [[r' h1]| |] eqn:Er; cbn [bind] in Hs; try discriminate.
+      destruct (IH _ _ _ _ _ _ _ _ Hf Hz Er Wr Wv) as (n1 & W1 & L1).
+      destruct (h_set_path_ext zh _ _ _ _ _ _ _ Hf Er) as [He1 Hf1].
+      rewrite h_pair_eq in Hs. injection Hs as <- <-.
+      pose proof (h_alloc_ext h1 (CPair zero_chunk l r') Hf1) as He2.
+      pose proof (wc_pair _ _ _ _ _ _ _ (h_alloc_new h1 (CPair zero_chunk l r'))
+                    (wcount_ext _ _ _ _ He2 (wcount_ext _ _ _ _ He1 Wl))
+                    (wcount_ext _ _ _ _ He2 W1)) as W.
+      rewrite chunk_eqb_refl in W. eexists. split; [exact W|]. simpl. lia.
+    + destruct (h_set_path zh h l p e v) as [[l' h1]| |] eqn:El; cbn [bind] in Hs; try discriminate.
+      destruct (IH _ _ _ _ _ _ _ _ Hf Hz El Wl Wv) as (n1 & W1 & L1).
+      destruct (h_set_path_ext zh _ _ _ _ _ _ _ Hf El) as [He1 Hf1].
+      rewrite h_pair_eq in Hs. injection Hs as <- <-.
+      pose proof (h_alloc_ext h1 (CPair zero_chunk l' r) Hf1) as He2.
+      pose proof (wc_pair _ _ _ _ _ _ _ (h_alloc_new h1 (CPair zero_chunk l' r))
+                    (wcount_ext _ _ _ _ He2 W1)
+                    (wcount_ext _ _ _ _ He2 (wcount_ext _ _ _ _ He1 Wr))) as W.
+      rewrite chunk_eqb_refl in W. eexists. split; [exact W|]. simpl. lia.
+Qed.
+
+Variable H : chunk -> chunk -> chunk.
+
+(* the composable form: hashes after a write <= path length + what was unhashed before *)
+Lemma h_set_path_merkle_count h a p e v a' h' na nv fuel r h'' c :
+  heap_wf h -> zeros_ok zh h -> (v < hp_next h)%positive ->
+  wcount h a na -> wcount h v nv ->
+  h_set_path zh h a p e v = OK (a', h') ->
+  (Pos.to_nat a' <= fuel)%nat -> h_merkle H fuel h' a' = OK (r, h'', c) ->
+  c <= N.of_nat (length p + na + nv).
+Proof.
+  intros Hwf Hz Hv Wa Wv Hs Hf Em.
+  destruct (heap_set_wf zh _ _ _ _ _ _ _ Hwf Hz Hv Hs) as (_ & Hwf' & _ & Ha').
+  destruct (h_set_path_wcount _ _ _ _ _ _ _ _ _ (heap_wf_fresh _ Hwf) (fun _ => Hz) Hs Wa Wv)
+    as (n' & W' & L').
+  pose proof (h_merkle_count_wcount H _ _ _ _ _ _ _ Hwf' Ha' Hf Em W'). lia.
+Qed.
+
+(* C07, second half *)
+Lemma h_set_path_merkle_bound h a p e v a' h' fuel r h'' c :
+  heap_wf h -> zeros_ok zh h -> memoised h a -> memoised h v ->
+  h_set_path zh h a p e v = OK (a', h') ->
+  (Pos.to_nat a' <= fuel)%nat -> h_merkle H fuel h' a' = OK (r, h'', c) ->
+  c <= N.of_nat (length p).
+Proof.
+  intros Hwf Hz Ma Mv Hs Hf Em.
+  assert (Hv : (v < hp_next h)%positive).
+  { inversion Mv; subst; eapply heap_wf_lt; eauto. }
+  pose proof (h_set_path_merkle_count _ _ _ _ _ _ _ _ _ _ _ _ _ Hwf Hz Hv
+                (memoised_wcount _ _ Ma) (memoised_wcount _ _ Mv) Hs Hf Em). lia.
+Qed.
+
+(* two consecutive writes (an append: element, then length), possibly with allocations
+   (heap_ext h1 h1') in between *)
+Lemma h_set_path_twice_bound h a p e v a1 h1 h1' q e' w a2 h2 fuel r h'' c :
+  heap_wf h -> zeros_ok zh h -> memoised h a -> memoised h v ->
+  h_set_path zh h a p e v = OK (a1, h1) ->
+  heap_ext h1 h1' -> heap_wf h1' -> memoised h1' w ->
+  h_set_path zh h1' a1 q e' w = OK (a2, h2) ->
+  (Pos.to_nat a2 <= fuel)%nat -> h_merkle H fuel h2 a2 = OK (r, h'', c) ->
+  c <= N.of_nat (length p + length q).
+Proof.
+  intros Hwf Hz Ma Mv Hs1 He Hwf1 Mw Hs2 Hf Em.
+  destruct (h_set_path_wcount _ _ _ _ _ _ _ _ _ (heap_wf_fresh _ Hwf) (fun _ => Hz) Hs1
+              (memoised_wcount _ _ Ma) (memoised_wcount _ _ Mv)) as (n1 & W1 & L1).
+  assert (Hz1 : zeros_ok zh h1').
+  { eapply zeros_ok_ext; [exact He|]. eapply zeros_ok_ext; [|exact Hz].
+    eapply heap_set_original; eauto. }
+  assert (Hw : (w < hp_next h1')%positive).
+  { inversion Mw; subst; eapply heap_wf_lt; eauto. }
+  pose proof (h_set_path_merkle_count _ _ _ _ _ _ _ _ _ _ _ _ _ Hwf1 Hz1 Hw
+                (wcount_ext _ _ _ _ He W1) (memoised_wcount _ _ Mw) Hs2 Hf Em). lia.
+Qed.
+
+End PathBound.
+
+(* ------------------------------------------------------------------------------------- *)
+(* 9. C14: a fully hashed shared ancestor is read-only                                    *)
+(* ------------------------------------------------------------------------------------- *)
+
+Lemma frozen_prefix_ext_memo h h' k :
+  heap_ext_memo h h' -> frozen_below h k ->
+  (forall b, (b < k)%positive -> h_cell h' b = h_cell h b) /\ frozen_below h' k.
+Proof.
+  intros He Hfz.
+  assert (A : forall b, (b < k)%positive -> h_cell h' b = h_cell h b).
+  { intros b Hb. destruct (Hfz _ Hb) as (c & Hc & Fc). rewrite Hc. eapply frozen_cell_stable; eauto. }
+  split; [exact A|]. intros b Hb. rewrite (A _ Hb). now apply Hfz.
+Qed.
+
+(* the same for the cells of one fully hashed tree, wherever they lie *)
+Lemma frozen_tree_ext_memo h h' a b :
+  heap_ext_memo h h' -> memoised h a -> reach h a b -> h_cell h' b = h_cell h b.
+Proof.
+  intros He Hm Hr. induction Hr as [a|a m l r b Hc Hr IH|a m l r b Hc Hr IH].
+  - inversion Hm as [a0 c Hc|a0 m l r Hc Hz Hl Hr]; subst; rewrite Hc;
+      eapply frozen_cell_stable; eauto; simpl; auto.
+  - inversion Hm as [a0 c Hc0|a0 m0 l0 r0 Hc0 Hz Hl0 Hr0]; subst; rewrite Hc in Hc0; [discriminate|].
+    injection Hc0 as <- <- <-. now apply IH.
+  - inversion Hm as [a0 c Hc0|a0 m0 l0 r0 Hc0 Hz Hl0 Hr0]; subst; rewrite Hc in Hc0; [discriminate|].
+    injection Hc0 as <- <- <-. now apply IH.
+Qed.
+
+Section Forks.
+Variable H : chunk -> chunk -> chunk.
+Variable zh : nat -> chunk.
+
+Lemma hm_step_frozen st o k :
+  hm_inv zh st -> frozen_below (m_store _ _ st) k ->
+  (forall b, (b < k)%positive ->
+     h_cell (m_store _ _ (fst (hm_step zh st o))) b = h_cell (m_store _ _ st) b) /\
+  frozen_below (m_store _ _ (fst (hm_step zh st o))) k.
+Proof.
+  intros Hi Hfz. apply frozen_prefix_ext_memo; [|exact Hfz].
+  apply heap_ext_ext_memo. now apply hm_step_persistent.
+Qed.
+
+Lemma h_merkle_frozen fuel h a r h' c k :
+  heap_wf h -> (a < hp_next h)%positive -> (Pos.to_nat a <= fuel)%nat ->
+  h_merkle H fuel h a = OK (r, h', c) -> frozen_below h k ->
+  (forall b, (b < k)%positive -> h_cell h' b = h_cell h b) /\ frozen_below h' k.
+Proof.
+  intros Hwf Ha Hf E Hfz. apply frozen_prefix_ext_memo; [|exact Hfz].
+  now destruct (h_merkle_heap H _ _ _ _ _ _ Hwf Ha Hf E).
+Qed.
+
+Lemma hm_run_frozen st evs k :
+  hm_inv zh st -> frozen_below (m_store _ _ st) k ->
+  (forall b, (b < k)%positive ->
+     h_cell (m_store _ _ (hm_run H zh st evs)) b = h_cell (m_store _ _ st) b) /\
+  frozen_below (m_store _ _ (hm_run H zh st evs)) k.
+Proof.
+  intros Hi Hfz. apply frozen_prefix_ext_memo; [|exact Hfz].
+  now destruct (hm_run_inv H zh evs st Hi) as (_ & He & _).
+Qed.
+
+Lemma hm_run_frozen_tree st evs a b :
+  hm_inv zh st -> memoised (m_store _ _ st) a -> reach (m_store _ _ st) a b ->
+  h_cell (m_store _ _ (hm_run H zh st evs)) b = h_cell (m_store _ _ st) b.
+Proof.
+  intros Hi Hm Hr. eapply frozen_tree_ext_memo; eauto.
+  now destruct (hm_run_inv H zh evs st Hi) as (_ & He & _).
+Qed.
+
+(* whatever the other forks did in between (any history), a fork's handle has the same
+   content, and a hash request on it returns the same root *)
+Lemma hm_run_root_stable st evs k x n r1 st1 c1 r2 st2 c2 :
+  hm_inv zh st -> memo_ok H (m_store _ _ st) ->
+  nth_error (m_handles _ _ st) k = Some x -> habs (m_store _ _ st) (h_back _ x) n ->
+  nth_error (m_handles _ _ (hm_run H zh st evs)) k = Some x ->
+  hm_hash H st k = OK (r1, st1, c1) -> hm_hash H (hm_run H zh st evs) k = OK (r2, st2, c2) ->
+  r1 = root_of H n /\ r2 = root_of H n.
+Proof.
+  intros Hi Hok Hx Hn Hx' E1 E2.
+  destruct (hm_run_inv H zh evs st Hi) as (Hi' & He & Hok' & _). specialize (Hok' Hok).
+  unfold hm_hash in E1, E2. rewrite Hx in E1. rewrite Hx' in E2.
+  destruct (h_merkle H _ (m_store _ _ st) _) as [[[ra ha] ca]| |] eqn:Ea; try discriminate.
+  destruct (h_merkle H _ (m_store _ _ (hm_run H zh st evs)) _) as [[[rb hb] cb]| |] eqn:Eb;
+    try discriminate.
+  injection E1 as <- _ _. injection E2 as <- _ _.
+  destruct (h_merkle_root H _ _ _ _ _ _ _ (proj1 Hi) Hok Hn (le_n _) Ea) as [-> _].
+  destruct (h_merkle_root H _ _ _ _ _ _ _ (proj1 Hi') Hok' (habs_ext_memo _ _ _ _ He Hn) (le_n _) Eb)
+    as [-> _]. auto.
+Qed.
+
+End Forks.
+
+(* ------------------------------------------------------------------------------------- *)
+(* 10. building states; examples: the hypotheses of the C05/C06/C07/C14 theorems are       *)
+(*     satisfiable by non-trivial inputs                                                  *)
+(* ------------------------------------------------------------------------------------- *)
+
+Lemma hm_alloc_inv zh h n :
+  h_inv zh h -> good addr heap (h_inv zh) h_valid heap_grow h (hm_alloc h n).
+Proof.
+  intros Hi. unfold hm_alloc.
+  apply (alloc_node_good addr heap h_leaf h_pair (h_inv zh) h_valid heap_grow).
+  - apply heap_grow_trans.
+  - intros s s' t [[_ Hle] _] Ht. unfold h_valid in *. lia.
+  - intros s c Hinv. apply h_alloc_good; [exact Hinv|]. intros m l r0 E. discriminate.
+  - intros s l r0 Hinv Hl Hr. apply h_alloc_good; [exact Hinv|].
+    intros m l0 r1 E. injection E as <- <- <-. auto.
+  - exact Hi.
+Qed.
+
+Lemma h_inv_init zh : h_inv zh (heap_init zh).
+Proof.
+  split; [apply heap_init_wf|]. split; [apply heap_init_zeros_ok|].
+  destruct (init_cells_spec zh 65) as (Hn & _). unfold heap_init. fold heap0.
+  rewrite h_alloc_next, Hn. vm_compute. reflexivity.
+Qed.
+
+(* a one-handle machine state over a freshly allocated tree satisfies every invariant *)
+Lemma hm_state_of_node H zh t n :
+  let st := (let '(a, h) := hm_alloc (heap_init zh) n in mkM addr heap h [mkH addr t a None]) in
+  hm_inv zh st /\ memo_ok H (m_store _ _ st) /\ memo_closed (m_store _ _ st) /\
+  hooks_wf (m_handles _ _ st).
+Proof.
+  destruct (hm_alloc_inv zh (heap_init zh) n (h_inv_init zh)) as ((Hwf & Hz & Ht) & Hg & Hv).
+  destruct (hm_alloc (heap_init zh) n) as [a h]. simpl in *.
+  split; [|split; [|split]].
+  - unfold hm_inv. simpl. split; [exact Hwf|]. split; [exact Hz|]. split; [exact Ht|].
+    intros k x Hx. destruct k as [|k]; simpl in Hx; [|destruct k; discriminate].
+    injection Hx as <-. exact Hv.
+  - eapply heap_grow_memo_ok; [apply heap_init_wf|exact Hg|apply memo_ok_init].
+  - eapply heap_grow_memo_closed; [exact Hg|apply memo_closed_init].
+  - intros k x p i Hx Hh. destruct k as [|k]; simpl in Hx; [|destruct k; discriminate].
+    injection Hx as <-. discriminate.
+Qed.
+
+(* the process-wide cells are a frozen prefix from the start *)
+Lemma heap_init_frozen zh : frozen_below (heap_init zh) 67%positive.
+Proof.
+  intros b Hb. destruct (Pos.eq_dec b true_addr) as [->|Hne].
+  - exists (CLeaf true_chunk). split; [|exact I].
+    unfold heap_init. fold heap0. destruct (init_cells_spec zh 65) as (Hn & _).
+    replace true_addr with (hp_next (init_cells zh 65 heap0)) by (rewrite Hn; reflexivity).
+    apply h_alloc_new.
+  - exists (CLeaf (zh (Pos.to_nat b - 1)%nat)). split; [|exact I].
+    assert (Hb' : b = zero_addr (Pos.to_nat b - 1)%nat).
+    { unfold zero_addr. rewrite Pos.of_nat_succ.
+      replace (S (Pos.to_nat b - 1)%nat) with (Pos.to_nat b) by lia. now rewrite Pos2Nat.id. }
+    rewrite Hb' at 1. apply heap_init_zeros_ok. unfold true_addr in Hne. lia.
+Qed.
+
+(* a toy hash that never returns the zero chunk *)
+Definition yH (a b : chunk) : chunk := Byte.x01 :: firstn 31 (xH a b).
+Definition yzh : nat -> chunk := zero_hash yH.
+
+Example ex_Hnz : Hnz yH.
+Proof.
+  intros a b E. apply (f_equal (hd Byte.x02)) in E. unfold yH, zero_chunk, zero_bytes, b0 in E.
+  simpl in E. discriminate.
+Qed.
+
+(* Container{ Vector[uint64, 8]; uint64 }, all zero *)
+Definition ex_ty : ty := TContainer [TVector (TUint 8) 8; TUint 8].
+Definition ex_node : node := Pair (Pair (Leaf (yzh 0)) (Leaf (yzh 0))) (Leaf (yzh 0)).
+Definition ex_st0 : hm_state :=
+  let '(a, h) := hm_alloc (heap_init yzh) ex_node in mkM _ _ h [mkH _ ex_ty a None].
+
+Example ex_st0_ok :
+  hm_inv yzh ex_st0 /\ memo_ok yH (m_store _ _ ex_st0) /\ memo_closed (m_store _ _ ex_st0) /\
+  hooks_wf (m_handles _ _ ex_st0) /\ frozen_below (m_store _ _ ex_st0) 67%positive.
+Proof.
+  destruct (hm_state_of_node yH yzh ex_ty ex_node) as (A & B & C & D).
+  split; [exact A|]. split; [exact B|]. split; [exact C|]. split; [exact D|].
+  destruct (hm_alloc_inv yzh (heap_init yzh) ex_node (h_inv_init yzh)) as (_ & Hg & _).
+  unfold ex_st0. destruct (hm_alloc (heap_init yzh) ex_node) as [a h]. simpl in *.
+  eapply frozen_prefix_ext_memo; [apply heap_ext_ext_memo, Hg|apply heap_init_frozen].
+Qed.
+
+(* a history: hash; take the sub-view of field 0; write element 5 through it (the hook
+   writes back into the container); hash twice; copy; write field 1 of the copy; hash the
+   copy; hash the original.  Hash counts: 2 (fresh tree), 2 (one per level of the two chained
+   writes), 0 (second request), 1 (the copy's single write), 0 (the original is untouched). *)
+Definition ex_evs : list hev :=
+  [EHash 0; EStep (OGet 0 0); EStep (OSet 1 5 (SLit (TUint 8) (VUint 7))); EHash 0; EHash 0;
+   EStep (OCopy 0); EStep (OSet 2 1 (SLit (TUint 8) (VUint 9))); EHash 2; EHash 0].
+
+Definition ex_out (st : hm_state) (e : hev) : option (res mout) * option N :=
+  match e with
+  | EStep o => (Some (snd (hm_step yzh st o)), None)
+  | EHash k => (None, match hm_hash yH st k with OK (_, _, c) => Some c | _ => None end)
+  end.
+Fixpoint ex_trace (st : hm_state) (evs : list hev) : list (option (res mout) * option N) :=
+  match evs with [] => [] | e :: r => ex_out st e :: ex_trace (hm_event yH yzh st e) r end.
+
+Example ex_history :
+  ex_trace ex_st0 ex_evs =
+  [(None, Some 2); (Some (OK (MHandle 1)), None); (Some (OK MUnit), None); (None, Some 2);
+   (None, Some 0); (Some (OK (MHandle 2)), None); (Some (OK MUnit), None); (None, Some 1);
+   (None, Some 0)] /\
+  map (fun x => (h_back _ x, h_hook _ x)) (m_handles _ _ (hm_run yH yzh ex_st0 ex_evs)) =
+  [(74%positive, None); (73%positive, Some (0%nat, 0)); (76%positive, None)].
+Proof. split; vm_compute; reflexivity. Qed.
+
+(* chains in the final handle list: handle 1 (the sub-view) hangs on handle 0; the copy
+   (handle 2) is detached *)
+Example ex_chains :
+  let hs := m_handles _ _ (hm_run yH yzh ex_st0 ex_evs) in
+  on_chain hs 1 0 /\ ~ on_chain hs 0 2 /\ ~ on_chain hs 1 2 /\ ~ on_chain hs 2 0.
+Proof.
+  assert (E : m_handles _ _ (hm_run yH yzh ex_st0 ex_evs) =
+              [mkH _ ex_ty 74%positive None; mkH _ (TVector (TUint 8) 8) 73%positive (Some (0%nat, 0));
+               mkH _ ex_ty 76%positive None]) by (vm_compute; reflexivity).
+  cbv zeta. rewrite E. split; [|split; [|split]].
+  - eapply chain_up; [reflexivity|reflexivity|apply chain_self].
+  - intros Hc. inversion Hc as [|j x p i k Hx Hh Hc']; subst. simpl in Hx. injection Hx as <-. discriminate.
+  - intros Hc. inversion Hc as [|j x p i k Hx Hh Hc']; subst. simpl in Hx. injection Hx as <-.
+    simpl in Hh. injection Hh as <- <-.
+    inversion Hc' as [|j x p i k Hx Hh0 Hc'']; subst. simpl in Hx. injection Hx as <-. discriminate.
+  - intros Hc. inversion Hc as [|j x p i k Hx Hh Hc']; subst. simpl in Hx. injection Hx as <-. discriminate.
+Qed.
+
+(* after a hash request the tree of handle 0 is fully hashed; a path write into it with an
+   already hashed value (the shared trueRoot leaf) is the situation of the C07 bound *)
+Definition ex_st1 : hm_state := hm_event yH yzh ex_st0 (EHash 0).
+
+Example ex_path_bound_hyps :
+  let h := m_store _ _ ex_st1 in
+  heap_wf h /\ zeros_ok yzh h /\ memoised h 71%positive /\ memoised h true_addr /\
+  nth_error (m_handles _ _ ex_st1) 0 = Some (mkH _ ex_ty 71%positive None) /\
+  (exists a' h' r h'',
+     h_set_path yzh h 71%positive [false; true] false true_addr = OK (a', h') /\
+     h_merkle yH (Pos.to_nat a') h' a' = OK (r, h'', 2)).
+Proof.
+  destruct ex_st0_ok as (Hi & Hok & Hcl & _).
+  assert (Hx : nth_error (m_handles _ _ ex_st0) 0 = Some (mkH _ ex_ty 71%positive None))
+    by (vm_compute; reflexivity).
+  destruct (hm_hash_spec yH yzh ex_st0 0 _ Hi Hx) as (r & h' & c & E & Em & Hi').
+  assert (Est : ex_st1 = mkM _ _ h' (m_handles _ _ ex_st0)).
+  { unfold ex_st1, hm_event. now rewrite E. }
+  cbv zeta. rewrite Est. simpl m_store. simpl m_handles.
+  destruct (h_merkle_memoised yH _ _ _ _ _ _ ex_Hnz (proj1 Hi) Hcl (proj2 (proj2 (proj2 Hi)) _ _ Hx)
+              (le_n _) Em) as [Hm _].
+  split; [apply Hi'|]. split; [apply Hi'|]. split; [exact Hm|]. split.
+  - eapply memoised_leaf. eapply ext_memo_leaf.
+    + destruct (h_merkle_heap yH _ _ _ _ _ _ (proj1 Hi) (proj2 (proj2 (proj2 Hi)) _ _ Hx) (le_n _) Em)
+        as (He & _). exact He.
+    + vm_compute. reflexivity.
+  - split; [exact Hx|].
+    assert (Eh : h' = m_store _ _ ex_st1) by (rewrite Est; reflexivity). rewrite Eh.
+    eexists _, _, _, _. split; vm_compute; reflexivity.
+Qed.
